@@ -76,6 +76,37 @@ func setList(m map[string]bool) string {
 	return strings.Join(ks, ",")
 }
 
+// setBuilderKeys: the call's static callee (a module function) returns a map
+// it made itself; the access paths of every key it stores into that map,
+// written in the caller's terms (`newSet(filter.IDs)` ↦ ["p:filter.IDs[*]"]).
+func setBuilderKeys(c *core.Ctx, call *ssa.Call) []string {
+	g := an.StaticCallee(&call.Call)
+	if g == nil || !c.P.InModule(g) || len(g.Blocks) == 0 {
+		return nil
+	}
+	made := map[ssa.Value]bool{}
+	for _, rb := range an.ReturnBlocks(g) {
+		for _, rv := range an.ReturnValues(an.LastInstr(rb).(*ssa.Return)) {
+			for _, src := range an.Sources(g, rv) {
+				if _, isMake := src.(*ssa.MakeMap); isMake {
+					made[src] = true
+				}
+			}
+		}
+	}
+	var keys []string
+	an.Instrs(g, func(in ssa.Instruction) {
+		if mu, ok := in.(*ssa.MapUpdate); ok {
+			for _, src := range an.Sources(g, mu.Map) {
+				if made[src] {
+					keys = append(keys, an.PathOfIn(mu.Key, &call.Call))
+				}
+			}
+		}
+	})
+	return keys
+}
+
 func runFltExh(c *core.Ctx) {
 	P := c.P
 	// (1) matcher: constructor reads all 7; Match/LimitMatch/Done read all 7 private copies
@@ -113,6 +144,14 @@ func runFltExh(c *core.Ctx) {
 				case *ssa.Store:
 					if strings.HasSuffix(an.PathOf(x.Addr), ".f."+f) && an.PathOf(x.Val) == "p:"+ctor.Params[0].Name()+"."+f {
 						ok = true
+					}
+					// the set is built by a helper: its keys, in the constructor's terms
+					if call := an.CallOf(x.Val); call != nil && strings.HasSuffix(an.PathOf(x.Addr), ".f."+f) {
+						for _, k := range setBuilderKeys(c, call) {
+							if strings.Contains(k, ctor.Params[0].Name()+"."+f) {
+								ok = true
+							}
+						}
 					}
 				case *ssa.MapUpdate:
 					if strings.HasSuffix(an.PathOf(x.Map), ".f."+f) || strings.Contains(an.PathOf(x.Map), ".f."+f) {
@@ -524,85 +563,163 @@ func init() {
 		Doc: "a filter list matches when ANY member matches and is Done when ALL members are", Run: runCombTab})
 }
 
-// accumulatorTable folds the loop body of a combinator: for each old value
-// of the accumulator and each verdict of the member call, the new value.
-func accumulatorTable(fn *ssa.Function, member string) (init bool, table map[[2]bool]string, ok bool) {
-	table = map[[2]bool]string{}
-	var acc *ssa.Phi
-	var h *ssa.BasicBlock
-	for _, b := range fn.Blocks {
-		if len(an.Latches(b)) == 0 {
-			continue
-		}
-		for _, in := range b.Instrs {
-			if ph, isPhi := in.(*ssa.Phi); isPhi {
-				if bt, isB := ph.Type().Underlying().(*types.Basic); isB && bt.Kind() == types.Bool {
-					acc, h = ph, b
-				}
-			}
-		}
-	}
-	if acc == nil {
-		return false, nil, false
-	}
-	var call ssa.Value
+// foldCell: what one loop iteration does for (accumulator value, member verdict).
+type foldCell struct {
+	out       string // "cont:T" "cont:F" "ret:T" "ret:F" "cont" "?"
+	consulted bool   // the member is called on every feasible path of the iteration
+}
+
+type foldSem struct {
+	hasAcc bool
+	init   string               // value of the accumulator at loop entry ("T"/"F"/"?")
+	cells  map[[2]bool]foldCell // (acc, member) -> effect; without an accumulator only acc = false rows, meaning "still in the loop"
+	exit   map[bool]string      // value returned when the loop runs out, per accumulator value
+}
+
+// foldSemantics decides, by evaluating every path of one loop iteration under
+// each assumption (accumulator, member verdict) ∈ {F,T}², what the loop over
+// the members computes. Both the accumulator form (`acc = f(m) || acc`, `if
+// f(m) { acc = true }`) and the early-return form (`if !f(m) { return false }`)
+// are covered: an iteration either continues with a new accumulator value or
+// returns a value.
+func foldSemantics(fn *ssa.Function, member string) (sem foldSem, ok bool) {
+	var call *ssa.Call
 	for _, ci := range calls(fn) {
 		n := an.CalleeName(ci.Common())
 		if strings.HasSuffix(n, ")."+member) || strings.HasSuffix(n, "."+member) {
-			call, _ = ci.(ssa.Value)
-		}
-	}
-	if call == nil {
-		return false, nil, false
-	}
-	var next ssa.Value
-	for i, pb := range h.Preds {
-		if h.Dominates(pb) {
-			next = acc.Edges[i]
-		} else if k, isK := acc.Edges[i].(*ssa.Const); isK {
-			init = k.Value != nil && k.Value.String() == "true"
-		}
-	}
-	if next == nil {
-		return false, nil, false
-	}
-	for _, l := range an.Latches(h) {
-		paths, okp := an.SimplePaths(h, func(b *ssa.BasicBlock) bool { return b == l }, 256)
-		if !okp {
-			return false, nil, false
-		}
-		for _, old := range []bool{false, true} {
-			for _, mv := range []bool{false, true} {
-				fr := an.NoSubject()
-				fr.Assume = map[ssa.Value]bool{ssa.Value(acc): old, call: mv}
-				res := "?"
-				for _, p := range paths {
-					q := append(append(an.Path(nil), p...), h)
-					feasible := true
-					for _, cd := range q.Conds() {
-						t, f, known := fr.EvalBool(cd.V, q)
-						if known && ((cd.True && !t) || (!cd.True && !f)) {
-							feasible = false
-						}
-					}
-					if !feasible {
-						continue
-					}
-					t, f, known := fr.EvalBool(next, q)
-					switch {
-					case !known:
-						res = "?"
-					case t && !f:
-						res = "T"
-					case f && !t:
-						res = "F"
-					}
-				}
-				table[[2]bool{old, mv}] = res
+			if cc, isCall := ci.(*ssa.Call); isCall {
+				call = cc
 			}
 		}
 	}
-	return init, table, true
+	if call == nil {
+		return sem, false
+	}
+	h := an.LoopHeaderOf(call.Block())
+	if h == nil {
+		return sem, false
+	}
+	loop := an.LoopBlocks(h)
+	var acc *ssa.Phi
+	for _, in := range h.Instrs {
+		if ph, isPhi := in.(*ssa.Phi); isPhi {
+			if bt, isB := ph.Type().Underlying().(*types.Basic); isB && bt.Kind() == types.Bool {
+				if acc != nil {
+					return sem, false // two boolean loop variables: not a fold this rule understands
+				}
+				acc = ph
+			}
+		}
+	}
+	tf := func(t, f, known bool) string {
+		switch {
+		case !known:
+			return "?"
+		case t && !f:
+			return "T"
+		case f && !t:
+			return "F"
+		}
+		return "?"
+	}
+	sem.hasAcc = acc != nil
+	sem.init = "?"
+	if acc != nil {
+		for i, pb := range h.Preds {
+			if !h.Dominates(pb) {
+				if k, isK := acc.Edges[i].(*ssa.Const); isK && k.Value != nil {
+					sem.init = map[bool]string{true: "T", false: "F"}[k.Value.String() == "true"]
+				}
+			}
+		}
+	}
+	isRet := map[*ssa.BasicBlock]bool{}
+	for _, rb := range an.ReturnBlocks(fn) {
+		isRet[rb] = true
+	}
+	paths, okp := an.IterPaths(h, func(b *ssa.BasicBlock) bool { return isRet[b] }, 512)
+	if !okp {
+		return sem, false
+	}
+	sem.cells = map[[2]bool]foldCell{}
+	sem.exit = map[bool]string{}
+	olds := []bool{false, true}
+	if acc == nil {
+		olds = []bool{false}
+	}
+	for _, old := range olds {
+		for _, mv := range []bool{false, true} {
+			fr := an.NoSubject()
+			fr.Assume = map[ssa.Value]bool{ssa.Value(call): mv}
+			if acc != nil {
+				fr.Assume[acc] = old
+			}
+			outs := map[string]bool{}
+			consulted := true
+			for _, p := range paths {
+				last := p[len(p)-1]
+				q := p
+				feasible := true
+				for _, cd := range q.Conds() {
+					t, f, known := fr.EvalBool(cd.V, q)
+					if known && ((cd.True && !t) || (!cd.True && !f)) {
+						feasible = false
+					}
+				}
+				if !feasible {
+					continue
+				}
+				inLoop := len(p) > 1 && loop[p[1]]
+				if !inLoop {
+					// the loop ran out
+					if isRet[last] {
+						rv := an.ReturnValues(an.LastInstr(last).(*ssa.Return))
+						if len(rv) > 0 {
+							t, f, known := fr.EvalBool(an.ResolveRetVal(rv[0], q), q)
+							if prev, seen := sem.exit[old]; seen && prev != tf(t, f, known) {
+								sem.exit[old] = "?"
+							} else {
+								sem.exit[old] = tf(t, f, known)
+							}
+						}
+					}
+					continue
+				}
+				if !p.Contains(call.Block()) {
+					consulted = false
+				}
+				switch {
+				case isRet[last]:
+					rv := an.ReturnValues(an.LastInstr(last).(*ssa.Return))
+					if len(rv) == 0 {
+						outs["?"] = true
+						continue
+					}
+					t, f, known := fr.EvalBool(an.ResolveRetVal(rv[0], q), q)
+					outs["ret:"+tf(t, f, known)] = true
+				case acc == nil:
+					outs["cont"] = true
+				default:
+					var next ssa.Value
+					for i, pb := range h.Preds {
+						if pb == p[len(p)-2] {
+							next = acc.Edges[i]
+						}
+					}
+					t, f, known := fr.EvalBool(next, q)
+					outs["cont:"+tf(t, f, known)] = true
+				}
+			}
+			cell := foldCell{out: "?", consulted: consulted}
+			if len(outs) == 1 {
+				for o := range outs {
+					cell.out = o
+				}
+			}
+			sem.cells[[2]bool{old, mv}] = cell
+		}
+	}
+	return sem, true
 }
 
 func runCombTab(c *core.Ctx) {
@@ -628,28 +745,69 @@ func runCombTab(c *core.Ctx) {
 			continue
 		}
 		c.CountFuncs(1)
-		init, tab, ok := accumulatorTable(fn, name)
+		sem, ok := foldSemantics(fn, name)
 		if !ok {
-			c.Unknown(nil, fname(c, fn), "truth-table", P.Pos(fn.Pos()), "accumulator loop not recognised")
+			c.Unknown(nil, fname(c, fn), "truth-table", P.Pos(fn.Pos()), "loop over the members not recognised")
 			continue
 		}
 		w := want[name]
-		good := init == w.init
+		absorbing := !w.init // OR: true, AND: false
+		bs := map[bool]string{true: "T", false: "F"}
+		good := true
 		var cells []string
-		for _, old := range []bool{false, true} {
+		if sem.hasAcc {
+			good = sem.init == bs[w.init]
+			for _, old := range []bool{false, true} {
+				for _, mv := range []bool{false, true} {
+					cell := sem.cells[[2]bool{old, mv}]
+					e := w.op(old, mv)
+					cells = append(cells, fmt.Sprintf("(%v,%v)→%s", old, mv, cell.out))
+					switch cell.out {
+					case "cont:" + bs[e]:
+					case "ret:" + bs[e]:
+						// leaving early is sound only once the result is fixed, and only if the
+						// remaining members need not be consulted (LimitMatch counts per member)
+						if e != absorbing || name == "LimitMatch" {
+							good = false
+						}
+					default:
+						good = false
+					}
+					if name == "LimitMatch" && !cell.consulted {
+						good = false
+						cells = append(cells, "(member not consulted)")
+					}
+				}
+				if sem.exit[old] != bs[old] {
+					good = false
+					cells = append(cells, fmt.Sprintf("exit(%v)→%s", old, sem.exit[old]))
+				}
+			}
+		} else {
+			// no accumulator: staying in the loop means "identity so far"; the loop's
+			// end returns the identity, an absorbing member verdict returns at once
 			for _, mv := range []bool{false, true} {
-				got := tab[[2]bool{old, mv}]
-				exp := map[bool]string{true: "T", false: "F"}[w.op(old, mv)]
-				// the member may legitimately not be consulted when the result is already fixed
-				cells = append(cells, fmt.Sprintf("(%v,%v)→%s", old, mv, got))
-				if got != exp {
+				cell := sem.cells[[2]bool{false, mv}]
+				cells = append(cells, fmt.Sprintf("(in-loop,%v)→%s", mv, cell.out))
+				if mv == absorbing {
+					if cell.out != "ret:"+bs[absorbing] || name == "LimitMatch" {
+						good = false
+					}
+				} else if cell.out != "cont" {
 					good = false
 				}
 			}
+			cells = append(cells, "exit→"+sem.exit[false])
+			if sem.exit[false] != bs[w.init] {
+				good = false
+			}
 		}
-		// the accumulated value is what is returned
+		init := sem.init
+		if !sem.hasAcc {
+			init = sem.exit[false]
+		}
 		c.Check(good, nil, fname(c, fn), "truth-table", P.Pos(fn.Pos()), fmt.Sprintf("starts %v; (acc, member) ↦ %s: %s", init, strings.Join(cells, " "), w.txt),
-			fmt.Sprintf("combinator starts %v and maps (acc, member) ↦ %s; want start %v and '%s'", init, strings.Join(cells, " "), w.init, w.txt))
+			fmt.Sprintf("combinator starts %v and maps (acc, member) ↦ %s; want start %v and '%s'", init, strings.Join(cells, " "), bs[w.init], w.txt))
 	}
 	// one member per filter, in order
 	ctor := P.Root.Func("NewReqFiltersEventLimitMatcher")
